@@ -146,8 +146,14 @@ def offered_sets(rng, n_random):
         yield tuple(x for x in SPECIFIC if rng.random() < 0.5)
 
 
-def run_one(is_async, coro, full_adapter, offered, opname):
-    """returns None or (what, observed, expected)"""
+NOTIFY_MODES = ("on", "off-then-set_watcher", "set_watcher-then-off", "off-then-watcher-exchanged")
+
+
+def run_one(is_async, coro, full_adapter, offered, opname, mode="on"):
+    """returns None or (what, observed, expected).  mode: auto-notify on (the default state), or switched off before the
+    watcher is attached / after it was attached / before the attached watcher is exchanged for another one - attaching a
+    watcher is not a flag change, so in the three off-modes no management call may notify (save_policy does: it notifies
+    whenever a watcher is set)"""
     op = next(o for o in operations() if o[0] == opname)
     m = casbin.Enforcer.new_model(text=MODEL)
     ad = (FullAdapter if full_adapter else MinimalAdapter)(ROWS)
@@ -155,7 +161,20 @@ def run_one(is_async, coro, full_adapter, offered, opname):
     e.set_adapter(ad)
     e.load_policy()
     w, log = make_watcher(offered, coro)
-    e.set_watcher(w)
+    old_log = []
+    if mode == "off-then-set_watcher":
+        e.enable_auto_notify_watcher(False)
+        e.set_watcher(w)
+    elif mode == "set_watcher-then-off":
+        e.set_watcher(w)
+        e.enable_auto_notify_watcher(False)
+    elif mode == "off-then-watcher-exchanged":
+        w_old, old_log = make_watcher(offered, coro)
+        e.set_watcher(w_old)
+        e.enable_auto_notify_watcher(False)
+        e.set_watcher(w)
+    else:
+        e.set_watcher(w)
     ad.calls[:] = []
     before = [list(r) for r in e.get_policy()]
     try:
@@ -167,6 +186,12 @@ def run_one(is_async, coro, full_adapter, offered, opname):
         # e.g. an adapter without update_policy: the call may raise; the property speaks of calls that report a result
         return None
     ok = bool(res) if not (op[3] == "save") else True
+    if old_log:
+        return ("a replaced watcher was still notified", dict(result=res, notifications=list(old_log)), [])
+    if mode != "on" and op[3] != "save":
+        if log:
+            return ("a notification was sent although auto-notify is off", dict(result=res, notifications=list(log)), [])
+        return None
     if op[3] == "save":
         want = [("update_for_save_policy", ["Model"])] if "update_for_save_policy" in offered else [("update", [])]
         got = [(n, a if n == "update" else ["Model"]) for n, a in log]
@@ -203,19 +228,26 @@ def run(chk, n_random):
     n = 0
     names = [o[0] for o in operations()]
     sets = list(offered_sets(rng, n_random))
+    n_off = 0
     for is_async, coro in ((False, False), (True, False), (True, True)):
         for full in (True, False):
             for offered in sets:
                 for opname in names:
-                    n += 1
-                    chk.count(("partial", is_async, coro, full, offered, opname))
-                    bad = run_one(is_async, coro, full, offered, opname)
-                    if bad:
-                        chk.spec_fail(dict(stratum="partial-watcher-minimal-adapter", enforcer="AsyncEnforcer" if is_async else "Enforcer",
-                                           coroutine_callbacks=coro, adapter="full" if full else "mandatory interface only",
-                                           watcher_offers=list(offered), call=opname,
-                                           replay_args=[is_async, coro, full, list(offered), opname]),
-                                      bad[1], bad[2], bad[0])
-                        chk.extra.setdefault("strata", {})["partial_watcher_minimal_adapter"] = n
-                        return
+                    for mode in NOTIFY_MODES:
+                        if mode == "on":
+                            n += 1
+                        else:
+                            n_off += 1
+                        chk.count(("partial", is_async, coro, full, offered, opname) + (() if mode == "on" else (mode,)))
+                        bad = run_one(is_async, coro, full, offered, opname, mode)
+                        if bad:
+                            chk.spec_fail(dict(stratum="partial-watcher-minimal-adapter", enforcer="AsyncEnforcer" if is_async else "Enforcer",
+                                               coroutine_callbacks=coro, adapter="full" if full else "mandatory interface only",
+                                               watcher_offers=list(offered), call=opname, auto_notify=mode,
+                                               replay_args=[is_async, coro, full, list(offered), opname, mode]),
+                                          bad[1], bad[2], bad[0])
+                            chk.extra.setdefault("strata", {})["partial_watcher_minimal_adapter"] = n
+                            chk.extra.setdefault("strata", {})["partial_watcher_auto_notify_off"] = n_off
+                            return
     chk.extra.setdefault("strata", {})["partial_watcher_minimal_adapter"] = n
+    chk.extra.setdefault("strata", {})["partial_watcher_auto_notify_off"] = n_off
